@@ -369,7 +369,19 @@ int main(int argc, char* argv[])
     const auto nsmall = blobs.size();
 
     // configured objects
-    for (const auto& id : {"lbfgs", "cgd-pr", "osga", "rqb", "ellipsoid", "gs", "augmented-lagrangian"})
+    // (every registered id in the larger corpora, a fixed selection in the small one used under ASan)
+    std::vector<std::string> solver_ids{"lbfgs", "cgd-pr", "osga", "rqb", "ellipsoid", "gs", "augmented-lagrangian"};
+    if (scale >= 3)
+    {
+        for (const auto& id : solver_t::all().ids())
+        {
+            if (std::find(solver_ids.begin(), solver_ids.end(), id) == solver_ids.end() && rng.coin(1, 2))
+            {
+                solver_ids.push_back(id);
+            }
+        }
+    }
+    for (const auto& id : solver_ids)
     {
         if (auto object = solver_t::all().get(id); object != nullptr)
         {
@@ -379,7 +391,7 @@ int main(int argc, char* argv[])
     }
     for (const auto& id : loss_t::all().ids())
     {
-        if (rng.coin(1, 3))
+        if (scale >= 3 || rng.coin(1, 3))
         {
             auto object = loss_t::all().get(id);
             shake(*object, rng);
